@@ -6,6 +6,7 @@ import Mathlib.Tactic.Ring
 import Mathlib.Algebra.Ring.Basic
 import Qvnt.Lemmas.Queue
 import Qvnt.Lemmas.GenInt.MacrosDisjoint
+import Qvnt.Lemmas.GenInt.MacrosInv
 import Qvnt.Lemmas.GenInt.int_process_apply_gate_eq
 
 set_option linter.unusedSectionVars false
@@ -15,7 +16,7 @@ variable {R : Type}
 section proc
 variable [Add R] [Sub R] [Mul R] [Neg R] [Div R] [ExprFns R] [AngleFns R]
 
-theorem int_process_node_apply_eq [Zero R] [One R] [Consts R] (s c : Interp R) (hd : MacrosDisjoint s c) (cl : Call R) :
+theorem int_process_node_apply_eq [Zero R] [One R] [Consts R] (s c : Interp R) (hd : MacrosInv s c) (cl : Call R) :
     int_process_node_apply s c (.apply cl) = (Interp.processApply s c cl).toE := by
   unfold int_process_node_apply
   exact int_process_apply_gate_eq s c hd cl.name cl.regs cl.args
